@@ -243,6 +243,18 @@ def hostile_layout(rng, text, layout):
                 out.append(' ')
         elif layout == 'longline':
             out.append(' ' * (rng.range(1, 400) if rng.chance(1, 40) else 1))
+        elif layout == 'unicode':
+            # many multi-byte characters in front of tokens on the same line, line breaks inside expressions: the code frames of
+            # diagnostics (columns are byte offsets) start and end at every kind of place relative to them
+            r = rng.below(12)
+            if r < 3:
+                out.append(' ' + rng.pick(['/* é ü 日本 */', '/* 日本語のテキスト */', '/* ✓✓✓✓✓✓ */', '/* ß */', '/* 𝔘𝔫𝔦𝔠𝔬𝔡𝔢 */']) + ' ')
+            elif r < 5:
+                out.append('\n')
+            elif r == 5:
+                out.append(' // 日本語のテキスト é\n')
+            else:
+                out.append(' ')
         else:
             r = rng.below(10)
             if r == 0:
@@ -316,3 +328,47 @@ def deep_nesting(kind, depth):
     if kind == 'toplevels':
         return ''.join('class C%d {}\n' % i for i in range(d))
     raise ValueError(kind)
+
+
+# ----------------------------------------------------------------------------- patterns applied to values of the wrong shape
+
+_BAD_PATTERNS = [
+    ('(a, b)', ['1', '"s"', 'true', 'Main.u()', '(x: int) -> x', 'Bx.init(1)', 'En.P(1)']),
+    ('(a, (b, c))', ['(1, 2)', '1', '(1, "s")']),
+    ('{ a, b }', ['1', '(1, 2)', 'En.P(1)', '"s"', 'Bx.init(1)']),
+    ('{ v as a, w as b }', ['Bx.init(1)', '1']),
+    ('P(a)', None),            # variant patterns are only allowed in match / if let
+    ('(a, b, c)', ['(1, 2)', 'Bx.init(1)']),
+]
+_BAD_MATCH = [
+    ('1', ['P(a) -> a, Q(b) -> 0']), ('Bx.init(1)', ['P(a) -> a, Q(a) -> 0']), ('En.P(1)', ['Zz(a) -> a, P(a) -> a, Q(a) -> 0']),
+    ('En.P(1)', ['P(a, b) -> a, Q(a) -> 0']), ('En.Q("s")', ['P(a) -> a, Q((a, b)) -> a']), ('(1, 2)', ['P(a) -> a, _ -> 0']),
+    ('En.P(1)', ['(a, b) -> a']), ('En.P(1)', ['{ a, b } -> a']),
+]
+_USES = [
+    '{ let g = () -> %s; g() }', '{ let g = (z: int) -> z + %s; g(1) }', '%s + 1', 'Main.id(%s)', '{ let h = () -> () -> %s; h()() }',
+    '{ let (p, q) = %s; p }', 'match %s { P(k) -> k, Q(_) -> 0 }', 'if let P(k) = %s { k } else { 0 }', '{ let t = (%s, 1); t.e0 }',
+    '%s.v', '%s(1)', '[%s]',
+]
+
+
+def bad_pattern_program(rng):
+    """A pattern that cannot be checked against its value (wrong shape, unknown tag, wrong arity), and the names it binds used
+    afterwards in every kind of place (captured by a lambda, matched again, called, projected)."""
+    use = rng.pick(_USES)
+    name = rng.pick(['a', 'b', 'a', 'c'])
+    if rng.chance(1, 2):
+        pat, vals = rng.pick(_BAD_PATTERNS)
+        val = rng.pick(vals) if vals else rng.pick(['En.P(1)', '1'])
+        if rng.chance(1, 6):
+            val = ''                                 # a recovered initialiser
+        body = '{ let %s = %s; %s }' % (pat, val, use % name)
+    else:
+        val, arms = rng.pick(_BAD_MATCH)
+        arms = rng.pick(arms)
+        arms = ', '.join(a.replace('-> a', '-> ' + (use % 'a')) if i == 0 else a for i, a in enumerate(arms.split(', ')))
+        body = rng.pick(['match %s { %s }', 'if let %s = %s { 1 } else { 0 }']) 
+        body = (body % (val, arms)) if body.startswith('match') else ('if let %s = %s { %s } else { 0 }' % (arms.split(' -> ')[0], val, use % 'a'))
+    return ('class Bx(val v: int, val w: int) {}\nclass En(P(int), Q(Str)) {}\n'
+            'class Main {\n  function u(): unit = {}\n  function id(x: int): int = x\n  function f(): int = %s\n'
+            '  function main(): unit = Process.println(Str.fromInt(Main.f()))\n}\n' % body)
